@@ -553,6 +553,22 @@ def _run(ctx: Ctx, proofs_ok: bool):
     ctx.extra["tiny_top_p_probe_failures"] = len(tiny)
     if tiny:
         spec_fail.append((SIG_TINY_P, min(tiny, key=lambda t: len(t["logits"]))))
+    # D2' the same tiny top_p values with the whole property judged on the output (some actions masked, a single feasible
+    # action, all feasible): the guard that always keeps the most likely action is the only thing left of the filter here
+    for dt, p in ((torch.float32, 1e-8), (torch.float32, 1e-10), (torch.float64, 1e-17), (torch.float32, 1e-6), (torch.float64, 1e-12)):
+        for z, mkl in (([0, 1, 2], [True, True, True]), ([0, 1, 2, 5], [True, True, True, False]), ([4, 1, 2, 3], [False, True, False, False]),
+                       ([5, -5, 0, 1, 1, 2, -3, 4, 4, 0, 1, 2], [False] + [True] * 11), ([3, 3, 1, 3], [True, True, True, False])):
+            x = torch.tensor([[v * LN2 for v in z]], dtype=dt)
+            mk = torch.tensor([mkl])
+            cfgp = {"temperature": 1.0, "top_p": p, "top_k": 0, "tanh_clipping": 0}
+            lp = call_pl(x, mk, cfgp)
+            ctx.count("tiny_top_p_spec_probes")
+            for sig, detail in spec_row([float(v) for v in lp[0]], mkl, [float(v) for v in x[0]], 0, p, 1e-5 if dt == torch.float32 else 1e-9):
+                if sig == "process_logits: not-a-probability-vector" and any(math.isnan(float(v)) for v in lp[0]):
+                    sig = SIG_TINY_P          # the recorded float-resolution mechanism, if it ever returns
+                spec_fail.append((sig, {"unit": "process_logits", "what": detail, "dtype": str(dt).replace("torch.", ""),
+                                        "logits": [float(v) for v in x[0]], "logits_hex": hexlist(x[0]), "mask": mkl, "kwargs": cfgp,
+                                        "observed_logprobs": [float(v) for v in lp[0]]}))
 
     mark("CD_float_and_probes")
     # ------------------------------------------------------------------ E. calculate_entropy: value and guard
